@@ -69,6 +69,7 @@ structure InvA (cfg : Cfg) (np ns : Option Nat) (w : World) : Prop where
     (S.ghostRecv.filter (·.1 = cn.pid)).map (·.2) = cn.gReceived
   l4 : ∀ s S, getS w s = some S → ∀ h ∈ S.held, (h.pid, h.seq) ∈ S.ghostRecv
   clog : ∀ cn ∈ w.conns, ConnLog cfg.overflow cn
+  gr : ∀ s S, getS w s = some S → ∀ e ∈ S.ghostRecv, some e.1 ≠ np ∧ ∃ P, getP w e.1 = some P
 
 /-! ### layer B -/
 
